@@ -1554,6 +1554,14 @@ def c14(tier, seed):
     vlib.build_harness()
     mc = vlib.run_tlc("Invoke", "Invoke.cfg", wd, timeout=600)
     mc["text"] = ""
+    # the filter of the implementation before repair d0e4562 (cancellation remembered per invoke id) must stay refuted:
+    # the specification is only worth something if it can tell the two mechanisms apart
+    try:
+        vlib.run_tlc("Invoke", "InvokeOld.cfg", wd, timeout=600)
+        raise ToolError("C14: Invoke.tla no longer refutes the per-invoke-id filter (InvokeOld.cfg)")
+    except ToolError as e:
+        if "NothingAfterCancel is violated" not in str(e):
+            raise
     rng = random.Random(seed)
     S = {"settle": 40}
     scripts = {
